@@ -209,14 +209,16 @@ pub fn generate(thorough: bool, seed: u64, em: &mut Emitter) {
             c["nontrivial"] = json!(true);
             em.case("issue", c);
         }
-        if i % 40 == 3 {
-            // claims that are not an object are outside the property; they are run for model fidelity only
-            let root = r.pick(&[json!([1, 2]), json!(null), json!("s"), json!([{"a": 1}])]).clone();
+        if i % 20 == 3 {
+            // claims that are not a JSON object cannot be the payload of a JWT: issuing returns an error (repair F29), whatever
+            // paths, decoys or key binding were asked for - and never panics
+            let root = r.pick(&[json!([1, 2]), json!(null), json!("s"), json!([{"a": 1}]), json!(5), json!(true), json!([])]).clone();
             let paths: Vec<&str> = if root.is_array() && r.chance(1, 2) { vec!["/0"] } else { vec![] };
             let mut c = issue_case(&root, &[], if r.chance(1, 3) { Some(2) } else { None }, r.chance(1, 3), "HS256", 1);
             c["paths"] = json!(paths);
-            c["expect_issue"] = json!("any");
+            c["expect_issue"] = json!("err");
             c["tag"] = json!("non_object_root");
+            c["nontrivial"] = json!(true);
             em.case("issue", c);
         }
     }
